@@ -2,7 +2,8 @@
 Require Import TSS.Base.Base TSS.Orch.Membership TSS.Orch.Sessions.
 From Coq Require Import Arith.
 
-Record ostep := mkOStep { os_ev : event; os_api : list (N * option res); os_syncs : list key; os_rbcs : list key;
+(* os_map: Some m when the application's membership map changed (between sessions) before this step *)
+Record ostep := mkOStep { os_map : option mmap; os_ev : event; os_api : list (N * option res); os_syncs : list key; os_rbcs : list key;
                           os_cls : list key; os_dkg : bool; os_reached : list reach; os_inits : list (N * list N);
                           os_dests : list (N * N * list N); os_panic : bool }.
 Record oscen := mkOScen { oc_map : mmap; oc_steps : list ostep }.
@@ -65,8 +66,9 @@ Definition step_ok (md : mode) (w : world) (o : obs) (e : ostep) : bool :=
 Fixpoint run_steps (md : mode) (mm : mmap) (w : world) (l : list ostep) (i : nat) : option nat :=
   match l with
   | [] => None
-  | e :: rest => let '(w', o) := step mm w (os_ev e) in
-                 if step_ok md w' o e then run_steps md mm w' rest (S i) else Some i
+  | e :: rest => let mm' := match os_map e with Some m => m | None => mm end in
+                 let '(w', o) := step mm' w (os_ev e) in
+                 if step_ok md w' o e then run_steps md mm' w' rest (S i) else Some i
   end.
 
 Definition check_scen (md : mode) (s : oscen) : option nat := run_steps md (oc_map s) world0 (oc_steps s) 0.
